@@ -63,7 +63,7 @@ type Config struct {
 	Replay   *Tape // nil = generate from Seed
 	MaxSteps int64
 	TraceOn  bool
-	Epoch    int64 // virtual epoch, ns since Unix epoch; 0 = chosen from tape
+	Epoch    int64   // virtual epoch, ns since Unix epoch; 0 = chosen from tape
 	Quanta   []int64 // CPU quantum choices (ns per yield); nil = default set
 }
 
@@ -226,11 +226,11 @@ func Run(cfg Config, root func()) *Result {
 	for _, r := range s.touched {
 		r.simReset()
 	}
+	S = nil
+	raceAcquire(&s.token)
 	for _, f := range s.userReset {
 		f()
 	}
-	S = nil
-	raceAcquire(&s.token)
 	res := &Result{Fail: s.fail, Steps: s.steps, Switches: s.switches, OpSwitches: s.opSwitches,
 		VirtualNs: s.now, Hash: s.hash, Trace: s.Trace, Faults: s.Faults, Probes: s.Probes,
 		Policy: s.policy, Tasks: len(s.tasks)}
